@@ -3,7 +3,7 @@
    literals it emits for name and description, conversions, and that the text
    contains the name and description functions verbatim. *)
 From Coq Require Import String.
-From VL Require Import Bytes Lit Idl Gen IdlTotal IdlSound.
+From VL Require Import Bytes Lit Idl IdlGrammar Gen IdlTotal IdlSound.
 Open Scope N_scope.
 
 Local Notation cat := concat_bytes.
@@ -272,36 +272,6 @@ Proof.
     destruct (is_prefix n (x :: a ++ n ++ r)); [reflexivity|exact IH].
 Qed.
 
-Lemma skipn_app_le : forall (k : nat) (u v : bytes), (k <= List.length u)%nat ->
-  skipn k (u ++ v) = skipn k u ++ v.
-Proof.
-  induction k as [|k IH]; intros u v H; [reflexivity|].
-  destruct u as [|x u]; simpl in *; [lia|]. apply IH. lia.
-Qed.
-
-(* replacing the first occurrence of the marker cannot touch what follows a
-   later (or the same) occurrence *)
-Lemma replace_first_suffix : forall n rp a r,
-  exists x, replace_first n rp (a ++ n ++ r) = x ++ r.
-Proof.
-  intros n rp a r. induction a as [|c a IH].
-  - exists rp. destruct n as [|y n].
-    + destruct r; reflexivity.
-    + change ([] ++ (y :: n) ++ r) with (y :: (n ++ r)). cbn [replace_first].
-      change (is_prefix (y :: n) (y :: n ++ r)) with (is_prefix (y :: n) ((y :: n) ++ r)).
-      rewrite is_prefix_app.
-      change (y :: n ++ r) with ((y :: n) ++ r).
-      rewrite skipn_app_le by lia. rewrite skipn_all. reflexivity.
-  - destruct IH as [x IH].
-    change ((c :: a) ++ n ++ r) with (c :: (a ++ n ++ r)). cbn [replace_first].
-    destruct (is_prefix n (c :: a ++ n ++ r)).
-    + exists (rp ++ skipn (List.length n) (c :: a ++ n)).
-      rewrite <- app_assoc. f_equal.
-      change (c :: a ++ n ++ r) with ((c :: a) ++ n ++ r). rewrite app_assoc.
-      rewrite skipn_app_le; [reflexivity|]. rewrite app_length. simpl. lia.
-    + exists (c :: x). rewrite IH. reflexivity.
-Qed.
-
 Lemma cat_in_split : forall x l, In x l -> exists u v, cat l = u ++ x ++ v.
 Proof.
   intros x l. induction l as [|y l IH]; intro H; [destruct H|].
@@ -317,12 +287,18 @@ Ltac find_in :=
   | |- In _ (_ :: _) => right; find_in
   end.
 
-(* whatever the imports replacement hits, the body written after the marker survives *)
+(* the import block directly follows the package clause; the rest follows it *)
+Theorem gen_text_layout : forall d,
+  gen_text d = gen_head d (pkgname_of (i_name d)) ++ imports_block d
+               ++ gen_body d (pkgname_of (i_name d)).
+Proof.
+  intro d. unfold gen_text, ret_string. cbn [concat_bytes]. rewrite app_nil_r. reflexivity.
+Qed.
+
 Lemma gen_text_suffix : forall d,
   exists x, gen_text d = x ++ gen_body d (pkgname_of (i_name d)).
 Proof.
-  intro d. unfold gen_text, ret_string. cbn [concat_bytes]. rewrite app_nil_r.
-  apply replace_first_suffix.
+  intro d. rewrite gen_text_layout. eexists. rewrite app_assoc. reflexivity.
 Qed.
 
 Definition descr_needle (descr : bytes) : bytes :=
@@ -393,20 +369,240 @@ Proof.
   destruct (parse_sound _ _ E) as (_ & _ & Hd). rewrite Hd. reflexivity.
 Qed.
 
-(* a defect made concrete: a doc comment that mentions the marker receives the
-   import block, and the real marker stays in the text (format.Source then fails) *)
-Example imports_marker_in_doc :
-  match generate (cat [b "# @IMPORTS@"; NL; b "interface a.b"; NL; b "method M() -> ()"; NL]) with
-  | GOk _ t => contains (cat [NL; NL; b "@IMPORTS@"; NL; NL]) t
-  | _ => false
-  end = true.
-Proof. vm_compute. reflexivity. Qed.
+(* ---------- the import block follows from the tree alone ---------- *)
 
-(* a defect made concrete: the imports are chosen by searching the whole text,
-   which embeds the description: a comment is enough to import fmt (unused) *)
-Example unused_import_from_comment :
-  match generate (cat [b "interface a.b"; NL; b "method M() -> () # fmt.Sprintf"; NL]) with
-  | GOk _ t => contains (cat [QUOTE; b "fmt"; QUOTE]) t
+Lemma filter_map_erase : forall (p : member -> bool) l,
+  (forall m, p (erase_member m) = p m) ->
+  filter p (map erase_member l) = map erase_member (filter p l).
+Proof.
+  intros p l H. induction l as [|m l IH]; [reflexivity|].
+  simpl. rewrite H. destruct (p m); simpl; rewrite IH; reflexivity.
+Qed.
+
+Lemma existsb_map_erase : forall (f : member -> bool) l,
+  (forall m, f (erase_member m) = f m) ->
+  existsb f (map erase_member l) = existsb f l.
+Proof.
+  intros f l H. induction l as [|m l IH]; [reflexivity|]. simpl. rewrite H, IH. reflexivity.
+Qed.
+
+Lemma erased_lists : forall d,
+  i_aliases (erase_docs d) = map erase_member (i_aliases d) /\
+  i_methods (erase_docs d) = map erase_member (i_methods d) /\
+  i_errors (erase_docs d) = map erase_member (i_errors d).
+Proof.
+  intro d. unfold i_aliases, i_methods, i_errors, erase_docs. cbn [i_members].
+  repeat split; apply filter_map_erase; intros [| |]; reflexivity.
+Qed.
+
+Lemma need_json_erase : forall d, need_json (erase_docs d) = need_json d.
+Proof.
+  intro d. unfold need_json. destruct (erased_lists d) as (Ha & Hm & He).
+  rewrite Ha, Hm, He.
+  rewrite !existsb_map_erase by (intros [| |]; reflexivity).
+  destruct (i_errors d); reflexivity.
+Qed.
+
+Lemma need_fmt_erase : forall d, need_fmt (erase_docs d) = need_fmt d.
+Proof.
+  intro d. unfold need_fmt. destruct (erased_lists d) as (_ & _ & He). rewrite He.
+  apply existsb_map_erase. intros [| |]; reflexivity.
+Qed.
+
+Lemma imports_block_erase : forall d, imports_block (erase_docs d) = imports_block d.
+Proof. intro d. unfold imports_block. rewrite need_json_erase, need_fmt_erase. reflexivity. Qed.
+
+(* the defects are gone: documentation comments and the description text have
+   no influence on the imports: two trees that agree up to docs and description
+   get the same import block, and it always sits right after the package clause
+   (gen_text_layout) *)
+Theorem imports_independent_of_docs : forall d d',
+  erase_docs d = erase_docs d' -> imports_block d = imports_block d'.
+Proof.
+  intros d d' H. rewrite <- (imports_block_erase d), <- (imports_block_erase d'), H. reflexivity.
+Qed.
+
+(* what is imported, exactly *)
+Definition imp (s : bytes) : bytes := cat [QUOTE; s; QUOTE].
+Theorem imports_block_spec : forall d,
+  imports_block d =
+    cat [b "import ("; NL;
+         join (NL ++ TAB)
+           ([imp (b "github.com/varlink/go/varlink"); imp (b "context")]
+            ++ (if need_json d then [imp (b "encoding/json")] else [])
+            ++ (if need_fmt d then [imp (b "fmt")] else []));
+         NL; b ")"].
+Proof. reflexivity. Qed.
+
+(* encoding/json: needed by Dispatch_Error when there is an error, and by object types *)
+Theorem need_json_iff : forall d,
+  need_json d = true <->
+  (exists m, In m (i_members d) /\ is_error m = true) \/
+  (exists n doc t, In (MAlias n doc t) (i_members d) /\ uses_object t = true) \/
+  (exists n doc i o, In (MMethod n doc i o) (i_members d) /\
+                     (uses_object i = true \/ uses_object o = true)).
+Proof.
+  intro d. unfold need_json, i_errors, i_aliases, i_methods.
+  rewrite !orb_true_iff, !existsb_exists. split.
+  - intros [[H|H]|H].
+    + left. destruct (filter is_error (i_members d)) as [|m l] eqn:E; [discriminate|].
+      assert (Hin : In m (filter is_error (i_members d))) by (rewrite E; left; reflexivity).
+      apply filter_In in Hin. exists m. exact Hin.
+    + right. left. destruct H as (m & Hin & Hu). apply filter_In in Hin. destruct Hin as [Hin Hk].
+      destruct m as [n doc t| |]; try discriminate. exists n, doc, t. auto.
+    + right. right. destruct H as (m & Hin & Hu). apply filter_In in Hin. destruct Hin as [Hin Hk].
+      destruct m as [|n doc i o|]; try discriminate. exists n, doc, i, o.
+      split; [assumption|]. apply orb_true_iff. exact Hu.
+  - intros [(m & Hin & He)|[(n & doc & t & Hin & Hu)|(n & doc & i & o & Hin & Hu)]].
+    + left. left. assert (H : In m (filter is_error (i_members d))) by (apply filter_In; auto).
+      destruct (filter is_error (i_members d)); [destruct H|reflexivity].
+    + left. right. exists (MAlias n doc t). split; [apply filter_In; auto|exact Hu].
+    + right. exists (MMethod n doc i o). split; [apply filter_In; auto|].
+      apply orb_true_iff. exact Hu.
+Qed.
+
+(* fmt: needed by Error() of an error with parameters *)
+Theorem need_fmt_iff : forall d,
+  need_fmt d = true <->
+  exists n doc t f fs, In (MError n doc (Some t)) (i_members d) /\ error_fields t = f :: fs.
+Proof.
+  intro d. unfold need_fmt, i_errors. rewrite existsb_exists. split.
+  - intros (m & Hin & H). apply filter_In in Hin. destruct Hin as [Hin _].
+    destruct m as [| |n doc [t|]]; try discriminate.
+    unfold error_has_fields, error_type, error_fields in H.
+    destruct (fields_of t) as [|f fs] eqn:E; [discriminate|].
+    exists n, doc, t, f, fs. auto.
+  - intros (n & doc & t & f & fs & Hin & E). exists (MError n doc (Some t)).
+    split; [apply filter_In; auto|].
+    unfold error_has_fields, error_type. rewrite E. reflexivity.
+Qed.
+
+(* ---------- uses_object is sound for the rendering ---------- *)
+
+Section TyInd.
+  Variable P : ty -> Prop.
+  Hypothesis Hbool : P TBool.
+  Hypothesis Hint : P TInt.
+  Hypothesis Hfloat : P TFloat.
+  Hypothesis Hstring : P TString.
+  Hypothesis Hobject : P TObject.
+  Hypothesis Harray : forall e, P e -> P (TArray e).
+  Hypothesis Hmaybe : forall e, P e -> P (TMaybe e).
+  Hypothesis Hmap : forall e, P e -> P (TMap e).
+  Hypothesis Halias : forall n, P (TAlias n).
+  Hypothesis Hstruct : forall fs, Forall (fun f => P (snd f)) fs -> P (TStruct fs).
+  Hypothesis Henum : forall ns, P (TEnum ns).
+
+  Fixpoint ty_ind_nested (t : ty) : P t :=
+    match t with
+    | TBool => Hbool | TInt => Hint | TFloat => Hfloat | TString => Hstring | TObject => Hobject
+    | TArray e => Harray e (ty_ind_nested e)
+    | TMaybe e => Hmaybe e (ty_ind_nested e)
+    | TMap e => Hmap e (ty_ind_nested e)
+    | TAlias n => Halias n
+    | TStruct fs =>
+      Hstruct fs ((fix go (l : list (bytes * ty)) : Forall (fun f => P (snd f)) l :=
+                     match l with
+                     | [] => Forall_nil _
+                     | f :: r => Forall_cons f (ty_ind_nested (snd f)) (go r)
+                     end) fs)
+    | TEnum ns => Henum ns
+    end.
+End TyInd.
+
+Lemma is_prefix_app_mono : forall n a c, is_prefix n a = true -> is_prefix n (a ++ c) = true.
+Proof.
+  induction n as [|x n IH]; intros a c H; [reflexivity|].
+  destruct a as [|y a]; [discriminate|]. simpl in *.
+  apply andb_true_iff in H. destruct H as [H1 H2]. rewrite H1, (IH _ _ H2). reflexivity.
+Qed.
+
+Lemma contains_unfold : forall n h,
+  contains n h = if is_prefix n h then true
+                 else match h with [] => false | _ :: r => contains n r end.
+Proof. intros n h. destruct h; reflexivity. Qed.
+
+Lemma contains_app_l : forall n a c, contains n a = true -> contains n (a ++ c) = true.
+Proof.
+  intros n a c. induction a as [|x a IH]; intro H.
+  - rewrite contains_unfold in H. rewrite contains_unfold.
+    destruct (is_prefix n []) eqn:E; [|discriminate].
+    rewrite (is_prefix_app_mono n [] c E). reflexivity.
+  - rewrite contains_unfold in H. change ((x :: a) ++ c) with (x :: (a ++ c)).
+    rewrite contains_unfold.
+    destruct (is_prefix n (x :: a)) eqn:E.
+    + change (x :: a ++ c) with ((x :: a) ++ c). rewrite (is_prefix_app_mono _ _ c E). reflexivity.
+    + destruct (is_prefix n (x :: a ++ c)); [reflexivity|]. apply IH. exact H.
+Qed.
+
+Lemma contains_app_r : forall n a c, contains n c = true -> contains n (a ++ c) = true.
+Proof.
+  intros n a c H. induction a as [|x a IH]; [exact H|].
+  change ((x :: a) ++ c) with (x :: (a ++ c)). rewrite contains_unfold.
+  destruct (is_prefix n (x :: a ++ c)); [reflexivity|exact IH].
+Qed.
+
+(* the field loop of writeType, named *)
+Fixpoint fields_text (json : bool) (ident : nat) (l : list (bytes * ty)) : bytes :=
+  match l with
+  | [] => []
+  | (n, ft) :: r =>
+    cat [tabs (S ident); title n; b " "; write_type ft json (S ident);
+         (if json
+          then cat [b " `json:"; QUOTE; n; (if is_maybe ft then b ",omitempty" else []); QUOTE; BQ]
+          else []);
+         NL; fields_text json ident r]
+  end.
+
+Lemma write_type_struct : forall f r j i,
+  write_type (TStruct (f :: r)) j i =
+  cat [b "struct {"; NL; fields_text j i (f :: r); tabs i; b "}"].
+Proof.
+  intros f r j i. destruct f as [n0 ft0]. cbn [write_type]. do 4 f_equal.
+  cbn [fields_text]. do 8 f_equal. clear n0 ft0.
+  induction r as [|[n ft] r IH]; [reflexivity|].
+  cbn [fields_text]. rewrite <- IH. reflexivity.
+Qed.
+
+Lemma uses_object_struct : forall fs,
+  uses_object (TStruct fs) = existsb (fun f => uses_object (snd f)) fs.
+Proof.
+  induction fs as [|[n ft] r IH]; [reflexivity|].
+  change (uses_object (TStruct ((n, ft) :: r))) with (uses_object ft || uses_object (TStruct r)).
+  rewrite IH. reflexivity.
+Qed.
+
+Definition json_raw : bytes := b "json.RawMessage".
+
+(* when usesObject says yes, the rendering does mention json.RawMessage *)
+Theorem uses_object_sound : forall t j i,
+  uses_object t = true -> contains json_raw (write_type t j i) = true.
+Proof.
+  intro t. induction t as [| | | | |e IHt|e IHt|e IHt|n|fs HF|ns] using ty_ind_nested;
+    intros j i Hu; try discriminate.
+  - vm_compute. reflexivity.
+  - cbn [write_type]. apply contains_app_r. apply IHt. exact Hu.
+  - cbn [write_type]. apply contains_app_r. apply IHt. exact Hu.
+  - cbn [write_type]. apply contains_app_r. apply IHt. exact Hu.
+  - rewrite uses_object_struct in Hu. destruct fs as [|f r]; [discriminate|].
+    rewrite write_type_struct. cbn [concat_bytes].
+    apply contains_app_r, contains_app_r, contains_app_l.
+    revert HF Hu. generalize (f :: r). clear f r.
+    induction l as [|[n ft] r IH]; intros HF Hu; [discriminate|].
+    inversion HF as [|? ? Hft Hr]; subst. cbn [existsb snd] in Hu.
+    cbn [fields_text concat_bytes].
+    apply orb_true_iff in Hu. destruct Hu as [Hu|Hu].
+    + apply contains_app_r, contains_app_r, contains_app_r, contains_app_l.
+      apply (Hft j (S i) Hu).
+    + do 6 apply contains_app_r. apply contains_app_l. apply IH; assumption.
+Qed.
+
+(* residual defect, made concrete: usesObject is also applied to a method
+   parameter list that is not a struct; its fields are never rendered, so
+   encoding/json is imported without being used (the file does not compile) *)
+Example json_import_unused_for_non_struct_parameters :
+  match generate (cat [b "interface a.b"; NL; b "method M object -> ()"; NL]) with
+  | GOk _ t => contains (b "encoding/json") t && negb (contains (b "json.") t)
   | _ => false
   end = true.
 Proof. vm_compute. reflexivity. Qed.
@@ -428,5 +624,10 @@ Print Assumptions tagged_untagged_differ_only_when_needed.
 Print Assumptions gen_text_verbatim.
 Print Assumptions text_reports_name_and_description.
 Print Assumptions reported_description.
-Print Assumptions imports_marker_in_doc.
-Print Assumptions unused_import_from_comment.
+Print Assumptions gen_text_layout.
+Print Assumptions imports_independent_of_docs.
+Print Assumptions imports_block_spec.
+Print Assumptions need_json_iff.
+Print Assumptions need_fmt_iff.
+Print Assumptions uses_object_sound.
+Print Assumptions json_import_unused_for_non_struct_parameters.
